@@ -39,10 +39,30 @@ def engine_for(prop):
 # single run
 # --------------------------------------------------------------------------
 
+_HEAP_JUNK = []
+
+
+def _heap_noise(seed):
+    """Self-test only (ODLSIM_HEAP_NOISE=<n>): hold and release blocks of
+    random small sizes between runs, so that the same plan meets another heap
+    layout.  Digests must not care (NumPy's inner-loop selection does: see
+    core.guarded_layout)."""
+    import random
+    import numpy as np
+    g = random.Random((seed << 8) ^ int(os.environ['ODLSIM_HEAP_NOISE']))
+    for _ in range(g.randint(1, 12)):
+        _HEAP_JUNK.append(np.zeros(g.choice([1, 3, 6, 9, 18, 40, 100, 300]),
+                                   dtype=g.choice(['u1', 'f8', 'c16'])))
+    while len(_HEAP_JUNK) > 40:
+        _HEAP_JUNK.pop(g.randrange(len(_HEAP_JUNK)))
+
+
 def execute_plan(prop, plan, seed=0, keep_log=False):
     """Execute one plan.  Returns (ctx, outcome) with outcome one of
     ('ok', None), ('reject', msg), ('violation', Violation)."""
     eng = engine_for(prop)
+    if os.environ.get('ODLSIM_HEAP_NOISE'):
+        _heap_noise(seed)
     ctx = Ctx(seed=seed, keep_log=keep_log)
     try:
         eng.execute(prop, plan, ctx)
